@@ -29,6 +29,20 @@ func mk(pos int, nib byte) []byte {
 // 1: keys share the first nibble and differ in the second (root is a shared-prefix node);
 // 2: like 1 but with a 3-nibble shared prefix.
 func keysFor(shape, n int) (present, absent [][]byte) {
+	if shape == 4 {
+		// pairs of keys sharing their first 63 nibbles (a branch at the last nibble holding values directly)
+		for i := 0; i < n; i++ {
+			k := mk(0, byte(i/2+1))
+			k[31] = byte(i%2 + 1)
+			present = append(present, k)
+		}
+		for i := 0; i < 3; i++ {
+			a := mk(0, byte(i+1))
+			a[31] = 9
+			absent = append(absent, a)
+		}
+		return
+	}
 	if shape == 3 {
 		// root branch whose children are branches: groups of three keys share the first nibble
 		for i := 0; i < n; i++ {
